@@ -30,6 +30,8 @@ CLAUSE_OF = {
     "P16": ("C04", "a response was written after the response to a later request"),
     "P17": ("C03", "a PUBREL was accepted for an identifier whose QoS 2 PUBLISH has not been handled successfully"),
     "P18": ("C04", "a PUBLISH vanished: no handler invocation, no response, connection still healthy"),
+    "P19": ("C12", "more publish handlers executing at once on a v3 server than max_receive allows"),
+    "P20": ("C12", "a PUBLISH the peer sent was never handled although every handler completed (reading did not resume)"),
     "P9": ("C17", "a handler saw a topic that is not the latest binding of the alias used"),
 }
 # recorded findings that the scan can hit (see known_findings.json)
@@ -406,6 +408,86 @@ def p18(v, case, obs):
     return []
 
 
+def unheld(case):
+    """burst engines: operation 4,1,... (packet written, nothing runs) read as the packet operation 1,..."""
+    return ";".join(f[2:] if f.startswith("4,1,") or f == "4,1" else f for f in case.split(";"))
+
+
+def p19(v, case, obs):
+    """C12 on a real v3 server: never more publish handlers executing at once than max_receive, however the frames
+    are spread over reads (handlers are numbered in call order; handler h runs from its invocation until the
+    operation 2,h that lets it complete, or not at all when that operation came first)"""
+    if obs == "9999" or v != 3:
+        return []
+    fields = [[int(t) for t in f.split(",")] for f in case.split(";")]
+    cfg, ops = fields[0], fields[1:]
+    of = obs.split(";")
+    if len(of) != len(ops) or len(cfg) < 5 or cfg[3] == 0:
+        return []
+    opened, running = set(), set()
+    for n, (op, f) in enumerate(zip(ops, of)):
+        try:
+            wire, hs, ps, stop1, nstop, is_open = I.parse_obs(f)
+        except ValueError:
+            return []
+        if op and op[0] == 2 and len(op) >= 2:
+            opened.add(op[1])
+            running.discard(op[1])
+        for (h, *_r) in hs:
+            if h < 1000 and h not in opened:
+                running.add(h)
+        if len(running) > cfg[3]:
+            return ["P19 %d publish handlers are executing at once (%s) max_receive is %d (op %d)" % (
+                len(running), sorted(running), cfg[3], n + 1)]
+    return []
+
+
+def p20(v, case, obs):
+    """C12: when handlers finish, reading resumes -- every packet the peer sent is eventually handled.  Clean cases
+    only: server, library protocol service, nothing but PUBLISH packets with plain topics and distinct identifiers
+    (QoS within the limit), every handler let through with Ok, within the v5 Receive Maximum: at the end every
+    PUBLISH has been handed to a handler."""
+    if obs == "9999":
+        return []
+    fields = [[int(t) for t in f.split(",")] for f in case.split(";")]
+    cfg, ops = fields[0], fields[1:]
+    of = obs.split(";")
+    if len(of) != len(ops) or len(cfg) < 5 or cfg[4] != 0:
+        return []
+    rmax = (cfg[1] or 16) if v == 5 else 10 ** 9
+    ids, sent, gates, seen = set(), 0, set(), 0
+    unacked = set()
+    for n, (op, f) in enumerate(zip(ops, of)):
+        try:
+            wire, hs, ps, stop1, nstop, is_open = I.parse_obs(f)
+        except ValueError:
+            return []
+        if nstop or not is_open or any(t == 0xE0 for (t, _, _) in wire):
+            return []
+        if op[0] == 1 and op[1] == 1 and len(op) >= 8:
+            qos, pid, topic, alias = op[2], op[3] if op[2] else 0, op[4], op[5]
+            if topic not in (1, 2, 3) or alias or qos > cfg[0] or (qos and (pid == 0 or pid in ids)):
+                return []
+            if qos:
+                ids.add(pid)
+                unacked.add(pid)
+                if len(unacked) > rmax:
+                    return []
+            sent += 1
+        elif op[0] == 2 and len(op) >= 3 and op[2] == 0:
+            gates.add(op[1])
+        else:
+            return []
+        seen += sum(1 for (h, *_r) in hs if h < 1000)
+        for (t, pid, r) in wire:
+            if t == 0x40 or (t == 0x50 and r >= 0x80) or t == 0x70:
+                unacked.discard(pid)
+    if gates >= set(range(1, sent + 1)) and seen < sent:
+        return ["P20 the peer sent %d PUBLISH packets and every handler was let through but only %d were handled "
+                "(op %d)" % (sent, seen, len(ops))]
+    return []
+
+
 RESP_OF = {1: None, 4: 0x70, 6: 0x90, 7: 0xB0, 8: 0xD0}
 
 
@@ -476,6 +558,21 @@ class InbPart(Part):
     def py_oracle(self, case, obs):
         if obs == "9999":
             return "0,panic" if "C16" in self.want else "1"
+        if self.engine in ("inb3b", "inb5b"):
+            # burst engines: the scans that do not depend on which operation a packet was handled in
+            c2 = unheld(case)
+            bad = []
+            if "C12" in self.want:
+                bad += p19(self.ver, c2, obs) + p20(self.ver, c2, obs)
+                if self.engine == "inb5b":
+                    bad += [b.replace("P12 ", "P13 ") for b in p12(self.ver, c2, obs) if "147" in b]
+            if "C04" in self.want:
+                bad += p16(self.ver, c2, obs)
+            if "C17" in self.want:
+                bad += p9(self.ver, c2, obs)
+            for b in bad:
+                return "0," + b.split(" ")[0] + "," + b.replace(",", " ").replace(";", " ")[:160]
+            return "1"
         bad = []
         if self.engine.startswith("inb"):
             try:
@@ -499,6 +596,8 @@ class InbPart(Part):
             bad = bad + p16(self.ver, case, obs) + p18(self.ver, case, obs)
         elif "C03" in self.want and self.engine.startswith("inb"):
             bad = bad + p18(self.ver, case, obs)
+        if "C12" in self.want and self.engine == "inb3":
+            bad = bad + p19(self.ver, case, obs)
         elif "C12" in self.want and self.engine in ("inb5", "cli5"):
             # receive maximum: 0x93 for a peer within its quota, or another code for a peer over it
             bad = bad + [b.replace("P12 ", "P13 ") for b in p12(self.ver, case, obs, client=self.engine == "cli5")
@@ -543,9 +642,22 @@ def make_parts(tier, rng, want, clients=True):
     return parts
 
 
+def burst_parts(tier, rng, want):
+    """servers only, engines inb3b / inb5b (operation 4 = a packet written without letting anything run)"""
+    n = 700 if tier == "quick" else 6000
+    parts = []
+    for v in (3, 5):
+        p = InbPart("burst-server-v%d" % v, "inb%db" % v, G.gen_held_bursts(v, rng, n), shards=16, has_oracle=False,
+                    rule="runs of 1..9 packets written back to back and read in one go, receive limit 1..4 or none, "
+                         "gated handlers completing in every order")
+        p.ver, p.want = v, tuple(want)
+        parts.append(p)
+    return parts
+
+
 def replay_parts(rp, want):
     p = InbPart("replay", rp["engine"], [rp["case"]], shards=1, has_oracle=False)
-    p.ver = 5 if rp["engine"].endswith("5") else 3
+    p.ver = 5 if "5" in rp["engine"] else 3
     p.want = tuple(want)
     return [p]
 
